@@ -418,3 +418,114 @@ pub fn show_history_case(coarse : bool, t0 : u64, ops : &[Op]) -> String
 {
     sexp::paren(&["history".to_string(), sexp::boolean(coarse), sexp::num64(t0), sexp::list(ops.iter().map(|o| o.show()).collect())])
 }
+
+
+// ---------- parsing a (history ...) case back into operations (corpus, replays) ----------
+
+#[derive(Debug, Clone)]
+enum Sx { Atom(String), List(Vec<Sx>) }
+
+fn parse_sx(text : &str) -> Option<Sx>
+{
+    let b = text.as_bytes();
+    let mut pos = 0usize;
+    fn item(b : &[u8], pos : &mut usize) -> Option<Sx>
+    {
+        while *pos < b.len() && (b[*pos] == b' ' || b[*pos] == b'\t') { *pos += 1; }
+        if *pos >= b.len() { return None; }
+        if b[*pos] == b'('
+        {
+            *pos += 1;
+            let mut items = vec![];
+            loop
+            {
+                while *pos < b.len() && b[*pos] == b' ' { *pos += 1; }
+                if *pos >= b.len() { return None; }
+                if b[*pos] == b')' { *pos += 1; return Some(Sx::List(items)); }
+                items.push(item(b, pos)?);
+            }
+        }
+        let start = *pos;
+        while *pos < b.len() && b[*pos] != b' ' && b[*pos] != b'(' && b[*pos] != b')' { *pos += 1; }
+        Some(Sx::Atom(String::from_utf8_lossy(&b[start..*pos]).to_string()))
+    }
+    item(b, &mut pos)
+}
+
+fn sx_bytes(s : &Sx) -> Option<Vec<u8>>
+{
+    match s
+    {
+        Sx::Atom(a) if a.starts_with('x') =>
+        {
+            let h = &a[1..];
+            (0..h.len() / 2).map(|i| u8::from_str_radix(&h[2 * i..2 * i + 2], 16).ok()).collect()
+        },
+        _ => None,
+    }
+}
+fn sx_string(s : &Sx) -> Option<String> { sx_bytes(s).map(|b| String::from_utf8_lossy(&b).to_string()) }
+fn sx_goal(s : &Sx) -> Option<Option<String>>
+{
+    match s
+    {
+        Sx::Atom(a) if a == "none" => Some(None),
+        Sx::List(v) if v.len() == 2 => Some(Some(sx_string(&v[1])?)),
+        _ => None,
+    }
+}
+
+pub fn parse_history_case(line : &str) -> Option<(bool, u64, Vec<Op>)>
+{
+    let sx = parse_sx(line.trim())?;
+    let items = match sx { Sx::List(v) => v, _ => return None };
+    if items.len() != 4 { return None; }
+    match &items[0] { Sx::Atom(a) if a == "history" => {}, _ => return None }
+    let coarse = match &items[1] { Sx::Atom(a) => a == "T", _ => return None };
+    let t0 = match &items[2] { Sx::Atom(a) => a.trim_start_matches('#').parse::<u64>().ok()?, _ => return None };
+    let ops_sx = match &items[3] { Sx::List(v) => v.clone(), _ => return None };
+    let mut ops = vec![];
+    for o in ops_sx.iter().skip(1)
+    {
+        let v = match o { Sx::List(v) => v, _ => return None };
+        let head = match &v[0] { Sx::Atom(a) => a.as_str(), _ => return None };
+        ops.push(match head
+        {
+            "write" => Op::Write(sx_string(&v[1])?, sx_bytes(&v[2])?),
+            "rm" => Op::Remove(sx_string(&v[1])?),
+            "chmod" => Op::Chmod(sx_string(&v[1])?, match &v[2] { Sx::Atom(a) => a == "T", _ => false }),
+            "rmcache" => Op::RmCache(sx_string(&v[1])?),
+            "rmruler" => Op::RmRuler,
+            "rmcachedir" => Op::RmCacheDir,
+            "rmhistdir" => Op::RmHistDir,
+            "rmtable" => Op::RmTable,
+            "rmhist" => Op::RmHist(sx_string(&v[1])?),
+            "settable" => Op::SetTable(sx_bytes(&v[1])?),
+            "sethist" => Op::SetHist(sx_string(&v[1])?, sx_bytes(&v[2])?),
+            "build" => Op::Build(sx_goal(&v[1])?),
+            "clean" => Op::Clean(sx_goal(&v[1])?),
+            _ => return None,
+        });
+    }
+    Some((coarse, t0, ops))
+}
+
+/// every corpus case stored for a suite: /verif/corpus/<suite>/*.case, one (history ...) line each
+pub fn corpus_cases(suite : &str) -> Vec<(String, String)>
+{
+    let dir = format!("/verif/corpus/{}", suite);
+    let mut out = vec![];
+    if let Ok(rd) = std::fs::read_dir(&dir)
+    {
+        let mut names : Vec<String> = rd.filter_map(|e| e.ok()).map(|e| e.file_name().to_string_lossy().to_string()).filter(|n| n.ends_with(".case")).collect();
+        names.sort();
+        for n in names
+        {
+            if let Ok(text) = std::fs::read_to_string(format!("{}/{}", dir, n))
+            {
+                for line in text.lines() { if line.starts_with("(history") { out.push((n.clone(), line.to_string())); } }
+            }
+        }
+    }
+    out
+}
